@@ -125,6 +125,84 @@ def run_schedule(ctx, ender, choices, rng):
     return trace
 
 
+def run_first_touch_schedule(ctx, styles, choices, rng, bound):
+    """Two handlers of one client run in two threads (async_handlers=True:
+    a thread per event) and both use the client's session, which nobody has
+    touched before.  Each writes a key of its own inside a session() block
+    (or get_session() + save_session()).  Once both have finished, both keys
+    are in what get_session() returns."""
+    sched = SC.ThreadScheduler(
+        choices=choices, rng=rng, preemption_bound=bound,
+        switch_prob=rng.choice([0.05, 0.15, 0.3]) if rng is not None
+        else None, max_steps=100000)
+    d = D.SyncDrive(async_handlers=False, autojoin=False)
+    sio = d.sio
+    d.on('connect', lambda sid, environ, auth=None: None, '/')
+    t = d.open()
+    t.connect('/')
+    sid = t.sids['/']
+    t.drain()
+
+    def actor(i, style):
+        def block():
+            with sio.session(sid) as s:
+                s['k%d' % i] = i
+
+        def get_save():
+            s = sio.get_session(sid)
+            s['k%d' % i] = i
+            sio.save_session(sid, s)
+        return block if style == 'block' else get_save
+    for i, style in enumerate(styles):
+        sched.spawn('handler%d' % i, actor(i, style))
+    import socketio.base_server
+    import socketio.server
+    SC.enable_lines(sched, [socketio.server.__file__,
+                            socketio.base_server.__file__])
+    try:
+        trace = sched.run()
+    finally:
+        SC.disable_lines()
+    ctx.count('first_touch_schedules')
+    wit = {'part': 'first_touch', 'styles': list(styles), 'bound': bound,
+           'choices': [c for _, c in trace],
+           'labels': [[a, lbl] for a, lbl in sched.labels][-60:]}
+    errs = list(sched.errors) + d.errors()
+    if sched.aborted:
+        SC.report_abort(ctx, sched, wit)
+        return trace
+    if errs:
+        wit['errors'] = [{'exc': e.get('exc'), 'tb': (e.get('tb') or '')[
+            -1200:]} for e in errs[:3]]
+        ctx.violation(None, 'two handlers using a fresh session at the same '
+                      'time: exception (%s)' % errs[0].get('exc'), wit)
+        return trace
+    got = sio.get_session(sid)
+    want = {'k%d' % i: i for i in range(len(styles))}
+    ctx.count('session_reads_checked')
+    if got != want:
+        wit['got'] = jsonable(got)
+        ctx.violation(None, 'two handlers of one client each stored a key in '
+                      'the session (nobody had touched it before); after '
+                      'both had finished get_session() returned %r, expected '
+                      '%r' % (got, want), wit)
+        return trace
+    ctx.case(('first_touch', tuple(styles),
+              tuple(c for _, c in trace)[:40]), None)
+    return trace
+
+
+def explore_first_touch(ctx, styles, limit, bound):
+    choices = []
+    n = 0
+    while choices is not None and n < limit and \
+            not ctx.too_many_violations():
+        trace = run_first_touch_schedule(ctx, styles, choices, None, bound)
+        n += 1
+        choices = SC.next_schedule(trace)
+    return n, choices is None
+
+
 def explore(ctx, ender, limit):
     choices = []
     n = 0
@@ -145,6 +223,21 @@ def run_part(ctx):
                                               'complete': complete}
 
 
+def run_first_touch_part(ctx):
+    ctx.extra['first_touch'] = {}
+    for styles in (('block', 'block'), ('block', 'get_save'),
+                   ('get_save', 'get_save'), ('block', 'block', 'block')):
+        for bound in (1, 2):
+            n, complete = explore_first_touch(
+                ctx, styles, 300 if ctx.tier == 'quick' else 20000, bound)
+            ctx.extra['first_touch']['+'.join(styles) +
+                                     ' <=%d pre-emptions' % bound] = {
+                'schedules': n, 'complete': complete}
+
+
 def replay(ctx, w):
     wi = w['witness']
+    if wi.get('part') == 'first_touch':
+        return run_first_touch_schedule(ctx, wi['styles'], wi['choices'],
+                                        None, wi.get('bound'))
     run_schedule(ctx, wi['ender'], wi['choices'], None)
